@@ -168,6 +168,40 @@ def run(C, R):
                                     fair_only=False, unlinked=unl,
                                     all_variants=set(v for tab in TYPESTATE[STATE].values() for v in tab))
         R.floor('C09.R7 enqueue-paths[%s]' % cfg, nenq, 2)
+        # R8: buffered values leave the buffer towards a receiver - or are discarded by the LAST receiver only (then
+        # the channel is closed and nobody is parked): a discard while receivers remain loses accepted values and frees
+        # slots past the parked senders.  (Same instances as C08.R2, judged here for the bounded-FIFO claim.)
+        n8 = 0
+        for fn in F.raw['fns']:
+            if fn['kind'] == 'closure' or not fn['path'].lstrip('<').startswith('channel::mpmc'):
+                continue
+            if not any(b['term']['k'] == 'call' and 'fn' in b['term']['func'] and
+                       b['term']['func']['fn']['name'] in ('clear', 'pop') for b in fn['blocks'] if not b['cleanup']):
+                continue
+            if fn.get('impl_adt') == STATE:
+                continue     # the state functions themselves: R2 (delivery) and C08.R2 (what clear does)
+            for path in E.run(fn['path']):
+                if path.exit != 'return':
+                    continue
+                disc = [e for e in path.events if e['k'] == 'call' and (
+                    (e['name'] == 'clear' and e.get('mode') == 'inline' and 'ChannelState' in e['callee']) or
+                    (e['name'] == 'pop' and 'RingBuf' in e.get('callee', '') and e.get('fn') == fn['path']
+                     and not contains(path.ret, e['ret'])))]
+                if not disc:
+                    continue
+                n8 += 1
+                subs = [e for e in path.events if e['k'] == 'call' and e['name'] == 'fetch_sub'
+                        and e['args'][0][0] == 'ref' and fields_of(e['args'][0][1])[-1:] == ('receivers',)]
+                last = any(const_of(E, path.facts, e['ret']) == 1 and e['args'][1] == ('const', 1) for e in subs)
+                if last:
+                    R.ok('C09.R8', '%s|buffered values discarded by the last receiver only|%s' % (fn['path'], path_cond(E, path)))
+                else:
+                    R.fail('C09.R8', [fn['path'], 'discard-while-receivers-remain'],
+                           '%s discards buffered values on a path that is not the drop of the last receiver: accepted '
+                           'values are lost and the freed slots let later sends overtake parked senders [%s]'
+                           % (fn['path'], path_cond(E, path)), where(F, disc[0]), {'trace': trace_summary(path)})
+        if cfg != 'none':
+            R.floor('C09.R8 discard-paths[%s]' % cfg, n8, 1)
         R.floor('C09.R1 push-sites[%s]' % cfg, npush, 3)
         R.floor('C09.R2 pop-paths[%s]' % cfg, npop, 2)
         R.floor('C09.R4 success-paths[%s]' % cfg, nsucc, 3)
